@@ -239,6 +239,7 @@ func (p *Pipeline) writeTrap() error {
 type batch struct {
 	name  string // package name, e.g. r0b003
 	progs []*Outcome
+	gogen bool // compiled through rewriter.GoGen (the go:generate entry point) instead of rewriter.Compile
 }
 
 func (b *batch) hasNative() bool {
@@ -390,6 +391,9 @@ func (p *Pipeline) compileBatches(bs []*batch) (panics map[string]string, err er
 			args := []string{p.ccdrv, "compile"}
 			for _, b := range g {
 				job := filepath.Join(p.SC.Dir, "src", b.name) + ":" + filepath.Join(p.SC.Dir, "out", b.name)
+				if b.gogen {
+					job = "gogen=" + job + ":" + filepath.Join(p.SC.Dir, "gg", b.name)
+				}
 				if p.Opts.Stage1 {
 					job += ":" + filepath.Join(p.SC.Dir, "s1", b.name)
 				}
@@ -606,6 +610,21 @@ func (p *Pipeline) Run(progs []*Program) ([]*Outcome, error) {
 		}
 		bs = append(bs, &batch{name: fmt.Sprintf("r%db%03d", p.round, len(bs)), progs: pooled[i:j]})
 	}
+	// every other package goes through the go:generate entry point (GoGen: files named *_co.go under the build
+	// tag co, derived files written next to them) instead of Compile; COVERIF_GOGEN=0 / 1 forces one of them
+	for i, b := range bs {
+		switch os.Getenv("COVERIF_GOGEN") {
+		case "0":
+		case "1":
+			b.gogen = true
+		default:
+			b.gogen = i%2 == 1
+		}
+		if b.gogen {
+			p.Stats["packages_compiled_through_GoGen"]++
+			p.Stats["programs_compiled_through_GoGen"] += len(b.progs)
+		}
+	}
 	good, bad, err := p.buildRound(bs, true)
 	if err != nil {
 		return nil, err
@@ -615,7 +634,7 @@ func (p *Pipeline) Run(progs []*Program) ([]*Outcome, error) {
 		var singles []*batch
 		for _, b := range bad {
 			for _, o := range b.progs {
-				singles = append(singles, &batch{name: fmt.Sprintf("r%ds%04d", p.round, o.Prog.ID), progs: []*Outcome{o}})
+				singles = append(singles, &batch{name: fmt.Sprintf("r%ds%04d", p.round, o.Prog.ID), progs: []*Outcome{o}, gogen: b.gogen})
 			}
 		}
 		p.Stats["programs_retried_alone"] += len(singles)
